@@ -32,6 +32,8 @@ def jobs(tier):
     out = []
     for P in (16384, 32768, 65536):
         out.append(("single.P%d" % P, "job", dict(shape="single", P=P, K=3, order="reversed")))
+    out.append(("dir1.P16384", "job", dict(shape="dir1", P=16384, K=3, order="reversed")))
+    out.append(("dir1.P65536", "job", dict(shape="dir1", P=65536, K=2, order="reversed")))
     out.append(("flat2.P16384", "job", dict(shape="flat2", P=16384, K=3, order="symbolic")))
     out.append(("flat2.P65536", "job", dict(shape="flat2", P=65536, K=2, order="reversed")))
     out.append(("nested3.P16384", "job", dict(shape="nested3", P=16384, K=2, order="reversed")))
